@@ -72,7 +72,11 @@ func drawC16(rt *rapid.T) interface{} {
 		p.EndAfter = rapid.IntRange(0, 8).Draw(rt, "endafter")
 		ns := rapid.IntRange(0, 5).Draw(rt, "nsends")
 		for j := 0; j < ns; j++ {
-			p.ServerSends = append(p.ServerSends, rapid.SampledFrom([]int{1, 3, 20, 200}).Draw(rt, "slen"))
+			p.ServerSends = append(p.ServerSends, rapid.SampledFrom([]int{1, 3, 20, 200, 200, 5000, 9000}).Draw(rt, "slen"))
+			if rapid.IntRange(0, 4).Draw(rt, "pause") == 0 {
+				// a negative entry: the actor lets that many milliseconds pass between two Sends
+				p.ServerSends = append(p.ServerSends, -rapid.SampledFrom([]int{10, 100, 10000}).Draw(rt, "pausems"))
+			}
 		}
 		p.IdleMs = rapid.SampledFrom([]int{0, 0, 0, 10, 100, 10000, 30000}).Draw(rt, "idle")
 		p.CloseFails = rapid.IntRange(0, 5).Draw(rt, "closefails") == 0
@@ -96,6 +100,17 @@ func drawC16(rt *rapid.T) interface{} {
 }
 
 // chunk wire format (server -> client): src, seq, len(2 bytes big endian), payload bytes all = seq
+// idle: the simulated time the server-side actor lets pass in all (before and between its Sends)
+func (p *connPlan) idle() int {
+	t := p.IdleMs
+	for _, n := range p.ServerSends {
+		if n < 0 {
+			t -= n
+		}
+	}
+	return t
+}
+
 func chunk(src, seq byte, n int) []byte {
 	b := make([]byte, 4+n)
 	b[0], b[1], b[2], b[3] = src, seq, byte(n>>8), byte(n)
@@ -204,7 +219,7 @@ func runC16(t *testing.T, sci interface{}, keepLog bool) *hx.Outcome {
 	// a clean local close: nothing but the application's Close ends the session and the peer reads all along
 	clean := func(cs *connState) bool {
 		p := cs.plan
-		return p.End == "local-close" && p.SecondEnd == "" && p.ClientReads && p.ReadDelayMs == 0 && p.DeadlineFault == 0 && p.IdleMs < sc.ReadTO && cs.handlerEnded == ""
+		return p.End == "local-close" && p.SecondEnd == "" && p.ClientReads && p.ReadDelayMs == 0 && p.DeadlineFault == 0 && p.idle() < sc.ReadTO && cs.handlerEnded == ""
 	}
 	// the shorter of the two configured timeouts: nothing that works without a timeout may take that long
 	grace := time.Duration(sc.ReadTO) * time.Millisecond
@@ -292,7 +307,7 @@ func runC16(t *testing.T, sci interface{}, keepLog bool) *hx.Outcome {
 				cs.client.Peer().CloseErr = errors.New("simnet: failed to send close notify (connection closed anyway)")
 			}
 			// an idle period longer than the read timeout ends the session by itself: then the stream may be cut short
-			idleEnds := plan.IdleMs >= sc.ReadTO
+			idleEnds := plan.idle() >= sc.ReadTO
 			cs.faulty = plan.End != "local-close" || plan.SecondEnd != "" || !plan.ClientReads || idleEnds || plan.ReadDelayMs > 0 || plan.DeadlineFault != 0
 			s.Logf("dial %s", name)
 			endEvent := func(kind string) {
@@ -369,6 +384,14 @@ func runC16(t *testing.T, sci interface{}, keepLog bool) *hx.Outcome {
 					s.Count("idle-before-send")
 				}
 				for _, n := range plan.ServerSends {
+					if n < 0 {
+						simtime.Sleep(time.Duration(-n) * time.Millisecond)
+						s.Count("idle-between-sends")
+						continue
+					}
+					if n > 4096 {
+						s.Count("send-of-more-than-4096-bytes")
+					}
 					seq := byte(cs.accepted[1])
 					if err := cs.sess.Send(chunk(1, seq, n)); err == nil {
 						cs.accepted[1]++
@@ -500,9 +523,9 @@ func TestC16(t *testing.T) {
 		Run:         runC16,
 		Real:        []string{"stcp.Server (accept loop), stcp.SessionMgr, stcp.EchoMgr / stcp.Echo (count clause), stcp.Session (loopSend, loopReceive, quit, recovery), syncx/pipe/q (simgen-transformed)", "io.ReadFull", "go.uber.org/atomic", "ulog/zap (silenced)"},
 		Stubs:       []string{"net (simnet: listener the harness dials, full-duplex bounded byte pipes, deadlines on the simulated clock, reset / peer close / temporary accept errors)", "time (simtime)", "sync (simsync)", "goroutine scheduling (simrt)"},
-		Rule: "scenario = max connections {1,2,3,8} x read/write timeouts x pipe buffer {8,64,4096} x 1-4 connections, each with 0-4 client frames (echo / swallow / handler error / handler panic), a reading, late-reading or non-reading peer, a handler of the manager's or of the session's own, 0-5 server Sends of 1-200 bytes, a terminating event (local Close, peer close, reset, silence -> timeout) after a drawn delay and optionally a second racing one, temporary accept errors x scheduler knobs/tape; " +
+		Rule: "scenario = max connections {1,2,3,8} x read/write timeouts x pipe buffer {8,64,4096} x 1-4 connections, each with 0-4 client frames (echo / swallow / handler error / handler panic), a reading, late-reading or non-reading peer, a handler of the manager's or of the session's own, 0-5 server Sends of 1-9000 bytes with optional pauses of 10 ms-10 s between them, a terminating event (local Close, peer close, reset, silence -> timeout) after a drawn delay and optionally a second racing one, temporary accept errors x scheduler knobs/tape; " +
 			"non-trivial = >=2 tasks and >=1 switch; distinct = distinct event-log hash",
-		Probes:      []string{"clean-local-close", "connection-refused-over-max", "count-reached-max", "net-accept-error-injected", "net-read-timeout", "net-write-timeout", "net-reset", "idle-before-send", "net-close-returns-error", "session-started-directly", "session-with-own-handler", "late-reader", "echo-manager-run", "net-set-write-deadline-fails", "net-set-read-deadline-fails"},
+		Probes:      []string{"clean-local-close", "connection-refused-over-max", "count-reached-max", "net-accept-error-injected", "net-read-timeout", "net-write-timeout", "net-reset", "idle-before-send", "idle-between-sends", "send-of-more-than-4096-bytes", "net-close-returns-error", "session-started-directly", "session-with-own-handler", "late-reader", "echo-manager-run", "net-set-write-deadline-fails", "net-set-read-deadline-fails"},
 		Assumptions: []string{"simnet close semantics: the peer reads what was written before the close, then EOF; a reset drops buffered data", "TLS, OS socket buffers and TCP half-close are out of scope"},
 	})
 }
